@@ -1,9 +1,15 @@
 use std::collections::{HashMap, HashSet};
 use std::ops::{DerefMut, Range};
 use std::str;
+#[cfg(not(locustdb_verif))]
 use std::sync::atomic::{AtomicU64, AtomicUsize};
+#[cfg(locustdb_verif)]
+use locustdb_simrt::sync::atomic::{AtomicU64, AtomicUsize};
 use std::sync::Arc;
+#[cfg(not(locustdb_verif))]
 use std::sync::{Mutex, RwLock};
+#[cfg(locustdb_verif)]
+use locustdb_simrt::sync::{Mutex, RwLock};
 
 use datasize::DataSize;
 use itertools::Itertools;
